@@ -858,3 +858,54 @@ Proof.
       split; [split; [apply Sim_transfer; assumption | intros _; apply (DirOK_ext (h_lib h)); assumption]|].
       right. right. eexists _, _, _. split; [rewrite <- Hlen; reflexivity|]. split; [reflexivity | exact Hbufs].
 Qed.
+
+(* ================= 9. the whole operation language, one file =================================================== *)
+Definition full_op (o : op) : Prop := an_op o \/ dfan_op o.
+
+Lemma op_eq_end : forall o, o = OEnd \/ o <> OEnd. Proof. destruct o; try (right; discriminate); left; reflexivity. Qed.
+Lemma op_eq_start : forall o, o = OStart \/ o <> OStart. Proof. destruct o; try (right; discriminate); left; reflexivity. Qed.
+
+Lemma mstep_sess : forall h o h' mr, mstep h o = (h', mr) -> o <> OStart -> o <> OEnd -> h_sess h' = h_sess h.
+Proof.
+  intros h o h' mr H N1 N2. destruct o; try congruence; unfold mstep in H; cbv beta iota zeta in H;
+  repeat dmatch H; inversion H; subst; first [reflexivity | assumption | (simpl; congruence)].
+Qed.
+
+Lemma an_closed_lib : forall h a o h' mr, Sim h a -> h_sess h = false -> an_op o -> mstep h o = (h', mr) ->
+  h_sess h' = true \/ h_lib h' = h_lib h.
+Proof.
+  intros h a o h' mr HS Hc Hop H. destruct (sim_closed _ _ HS Hc) as [_ C2].
+  destruct o; simpl in Hop; try contradiction; unfold mstep in H; cbv beta iota zeta in H; rewrite ?Hc in H; cbn [negb] in H;
+  try (inversion H; subst; simpl; auto; fail).
+  - (* write: the identifier is invalid outside a session *)
+    unfold ANIwriteann in H. rewrite C2 in H. simpl in H. inversion H; subst. right. reflexivity.
+  - destruct (ANIreadann _ _ _); inversion H; subst; auto.
+  - destruct (ANid2tagref _ _) as [[g rf]|]; inversion H; subst; auto.
+Qed.
+
+Theorem full_step_sim : forall h a o h' mr a' sr, SimD h a -> full_op o ->
+  mstep h o = (h', mr) -> step a (fill_full o mr) = (a', sr) ->
+  sr = RUnspec \/ exhausted sr mr \/ enum_capped a o \/ (SimD h' a' /\ accepts_full sr mr).
+Proof.
+  intros h a o h' mr a' sr HSD [Hop|Hop] HM HSp.
+  - (* AN interface *)
+    pose proof HSD as [HS HD].
+    assert (Hfill : fill_full o mr = fill o mr) by (destruct o; simpl in Hop; try contradiction; reflexivity).
+    rewrite Hfill in HSp.
+    destruct (an_step_sim _ _ _ _ _ _ _ HS Hop HM HSp) as [X|[X|[HS' Hacc]]]; [auto | auto|].
+    right. right. right. split; [|left; assumption]. split; [assumption|]. intros Hc'.
+    destruct (h_sess h) eqn:Es.
+    + (* left the session: only ANend does, and the harness then clears the DFAN directory *)
+      destruct (op_eq_end o) as [->|Ne].
+      * simpl in HM. rewrite Es in HM. inversion HM; subst. intros k b _ Hb. simpl in Hb. discriminate.
+      * destruct (op_eq_start o) as [->|Ns]; [simpl in HM; rewrite Es in HM; inversion HM; subst; rewrite Es in Hc'; discriminate|].
+        rewrite (mstep_sess _ _ _ _ HM Ns Ne) in Hc'. congruence.
+    + destruct (an_closed_lib _ _ _ _ _ HS Es Hop HM) as [X|X]; [congruence | rewrite X; apply HD; reflexivity].
+  - destruct o; simpl in Hop; try contradiction; unfold fill_full in HSp.
+    + destruct Hop as [Hk [Hg Hr]]. destruct (sim_dfput _ _ _ _ _ _ _ _ _ _ _ HSD Hk Hg Hr HM HSp) as [X|[X|X]]; auto.
+    + destruct (sim_dfget _ _ _ _ _ _ _ _ _ _ HSD Hop HM HSp) as [X|X]; auto.
+    + destruct (sim_dfgetlen _ _ _ _ _ _ _ _ _ HSD Hop HM HSp) as [X|X]; auto.
+    + destruct (sim_dfaddf _ _ _ _ _ _ _ _ _ HSD Hop HM HSp) as [X|[X|X]]; auto.
+    + destruct (sim_dfgetfs _ _ _ _ _ _ _ HSD Hop HM HSp) as [X|[X|X]]; auto.
+    + destruct (sim_dflablist _ _ _ _ _ _ _ _ HSD HM HSp) as [X|X]; auto.
+Qed.
